@@ -8,7 +8,7 @@ VARIABLE hist
 GenInit == Init /\ hist = <<obs>>
 GenNext == Next /\ hist' = Append(hist, obs')
 GenSpec == GenInit /\ [][GenNext]_<<vars, hist>>
-Skel == <<kind, holds, copyh, hascopy, extra, defer, made, cnt, alive, snd, tries>>
+Skel == <<kind, holds, copyh, hascopy, extra, defer, made, cnt, alive, snd, tries, inner, origin, tlen>>
 NoGapWalk == \A o \in Objs : cnt[o] <= Max \div 2 - 1 \/ cnt[o] >= Max - 1
 (* narrower exploration for the quick tier: counter pokes, plain-pointer references and deferred *)
 (* handles are not combined with an array copy, and only one object at a time is poked        *)
@@ -17,6 +17,9 @@ Narrow == /\ hascopy => \A o \in Objs : extra[o] = 0 /\ defer[o] = 0 /\ ~High(o)
           /\ Cardinality({o \in Objs : High(o)}) <= 1
           /\ \A o \in Objs : High(o) => defer[o] = 0
           /\ \A o \in Objs : (tries[o] > 0 \/ ~snd[o]) => (~hascopy /\ extra[o] = 0)
+          /\ (\E o \in Objs : inner[o] # 0) => (~hascopy /\ \A o \in Objs : extra[o] = 0 /\ ~High(o))
 NarrowGap == NoGapWalk /\ Narrow
-Emit == PrintT(<<"BEHAV", ToJson(hist')>>)
+(* every exported behaviour ends with the release of everything (expectation computed here by TLC) *)
+Emit == LET td == [a |-> "teardown", arg |-> [x |-> 0], exp |-> TeardownExp(kind', alive', cnt')] IN
+        PrintT(<<"BEHAV", ToJson(IF CanTeardown(kind', cnt') /\ obs'.a # "teardown" THEN Append(hist', td) ELSE hist')>>)
 =============================================================================
